@@ -304,7 +304,10 @@ class CouplingGraph(Collection[tuple[int, int]]):
         return list(self._adj[qudit])
 
     def __contains__(self, __o: object) -> bool:
-        return self._edges.__contains__(__o)
+        # Edges are undirected; they are stored smaller qudit first.
+        if isinstance(__o, tuple) and len(__o) == 2:
+            return __o in self._edges or (__o[1], __o[0]) in self._edges
+        return __o in self._edges
 
     def __eq__(self, __o: object) -> bool:
         if not isinstance(__o, CouplingGraph):
